@@ -194,6 +194,10 @@ def _exec_redirect(ctx, case):
         ctx.count("operations_under_custom_column_names")
         if r:
             return ctx.violation("custom-column-names", f"{what}: {r}", case)
+        r = G.same_under_ambient(lambda: redirect_tree(cur, case["node"], sort=case["sort"]),
+                                 pick=case["node"] + len(cols["pid"]))
+        if r:
+            return ctx.violation("ambient-state", f"{what}: {r}", case)
     for k, a in cols.items():
         if not np.array_equal(cur.ndata[k], a):
             ctx.violation("input-mutated", f"redirect_tree changed its input column {k!r}", case)
@@ -281,6 +285,9 @@ def _exec_cat(ctx, case):
         ctx.count("operations_under_custom_column_names")
         if r:
             return ctx.violation("custom-column-names", f"{what}: {r}", case)
+        r = G.same_under_ambient(lambda: cat_tree(A, B, a, b, translate=tr), pick=a + 3 * b)
+        if r:
+            return ctx.violation("ambient-state", f"{what}: {r}", case)
     wf = topo.well_formed(out.id(), out.pid())
     if wf:
         return ctx.violation("malformed-result", f"{what}: {wf}", case)
